@@ -61,7 +61,7 @@ def run(ctx):
                 ctx.violation("mode-dependent result under %s: %s" % (mode, d), rep, klass=klass)
         return
     totals = {"batches": 0, "all_e": 0, "permuted": 0, "nontrivial_runs": 0, "timeouts": [], "shrunk": {}, "path": "n/a"}
-    nrand = ctx.n(2, 8)
+    nrand = ctx.n(1, 8)
 
     def modes():
         return ["default", "unbuf", "unbuf_rc"] + ["random:%d" % ctx.rng.randrange(1, 2 ** 31) for _ in range(nrand)]
@@ -73,20 +73,20 @@ def run(ctx):
         if b in EXCLUDED:
             excluded[os.path.relpath(f, vf.REPO)] = EXCLUDED[b]
             continue
-        items.append(({"path": f}, modes(), ctx.n(10, 20)))
+        items.append(({"path": f}, modes(), ctx.n(20, 30)))
         labels.append(os.path.relpath(f, vf.REPO))
     ctx.cov["corpus_files"] = len(items)
     ctx.cov["corpus_excluded"] = excluded
     base.process(ctx, items, labels, "corpus", totals, 0, judge=cs.judge_modes, word="mode")
     ctx.log("corpus done: %d files" % len(items))
 
-    nprog = ctx.n(30, 600)
+    nprog = ctx.n(24, 600)
     items, labels = [], []
     for i in range(nprog):
         lines, feats = cs.gen_program(ctx.rng, malformed=(i % 5 == 4))
         for ft in feats:
             ctx.count("gen feature " + ft)
-        items.append(({"src": "\n".join(lines)}, modes(), 10))
+        items.append(({"src": "\n".join(lines)}, modes() + ["random:%d" % ctx.rng.randrange(1, 2 ** 31)], 20))
         labels.append("generated#%d" % i)
     ctx.cov["generated_programs"] = nprog
     base.process(ctx, items, labels, "generated", totals, ctx.n(1, 2), judge=cs.judge_modes, word="mode")
